@@ -86,7 +86,8 @@ def observe_params(text):
 # ---------------------------------------------------------------------------------------------
 LEADS = ["", " ", "   "]
 NUMS = ["", "N5 ", "N12", "n7 "]
-CODES = ["G1", "G 1", "g1", "M117", "T0", "G28.1", "M 205", "G92", ""]
+CODES = ["G1", "G 1", "g1", "M117", "T0", "G28.1", "M 205", "G92", "", "G92.0", "G00.00", "M605.0",
+         "G38.2", "G0001"]
 PARAMS = ["", " X1 Y2", "X1Y2", " X-1.5 E.2 F3000", " Hello World", " X1 \\; not a comment",
           " a\\\\b", " S1 P0"]
 CHECKS = ["", "*33", " *7", "*1*2"]
